@@ -260,338 +260,98 @@ func execEqualityExprNotEqual(context *exprContext, expr *grammar.Grammar) error
 	return nil
 }
 
-func execRelationalExprLessThan(context *exprContext, expr *grammar.Grammar) error {
+// relationalCompare implements the XPath 1.0 (section 3.4) semantics shared by
+// the <, <=, > and >= operators. The operand order is preserved when calling cmp.
+//
+// If both operands are node-sets, the result is true if there is a node in each
+// node-set such that comparing the numbers of their string-values is true. If one
+// operand is a node-set and the other is a boolean, the node-set is converted to
+// a boolean and both are compared as numbers. If one operand is a node-set and the
+// other is a number or a string, the result is true if there is a node in the
+// node-set such that comparing the number of its string-value with the number of
+// the other operand is true. Otherwise, both operands are converted to numbers.
+func relationalCompare(left, right Result, cmp func(a, b float64) bool) bool {
+	leftNodeSet, leftNodeSetOk := left.(NodeSet)
+	rightNodeSet, rightNodeSetOk := right.(NodeSet)
+
+	if leftNodeSetOk && rightNodeSetOk {
+		rightNumbers := make([]float64, len(rightNodeSet))
+
+		for i, rightNode := range rightNodeSet {
+			rightNumbers[i] = getStringNumber(GetCursorString(rightNode))
+		}
+
+		for _, leftNode := range leftNodeSet {
+			leftNumber := getStringNumber(GetCursorString(leftNode))
+
+			for _, rightNumber := range rightNumbers {
+				if cmp(leftNumber, rightNumber) {
+					return true
+				}
+			}
+		}
+
+		return false
+	}
+
+	if leftNodeSetOk {
+		if rightBool, rightBoolOk := right.(Bool); rightBoolOk {
+			return cmp(Bool(leftNodeSet.Bool()).Number(), rightBool.Number())
+		}
+
+		rightNumber := right.Number()
+
+		for _, leftNode := range leftNodeSet {
+			if cmp(getStringNumber(GetCursorString(leftNode)), rightNumber) {
+				return true
+			}
+		}
+
+		return false
+	}
+
+	if rightNodeSetOk {
+		if leftBool, leftBoolOk := left.(Bool); leftBoolOk {
+			return cmp(leftBool.Number(), Bool(rightNodeSet.Bool()).Number())
+		}
+
+		leftNumber := left.Number()
+
+		for _, rightNode := range rightNodeSet {
+			if cmp(leftNumber, getStringNumber(GetCursorString(rightNode))) {
+				return true
+			}
+		}
+
+		return false
+	}
+
+	return cmp(left.Number(), right.Number())
+}
+
+func execRelationalExpr(context *exprContext, expr *grammar.Grammar, cmp func(a, b float64) bool) error {
 	left, right, err := leftRightIndependentResult(context, expr)
 
 	if err != nil {
 		return err
 	}
 
-	leftNodeSet, leftNodeSetOk := left.(NodeSet)
-	rightNodeSet, rightNodeSetOk := right.(NodeSet)
-
-	if leftNodeSetOk && rightNodeSetOk {
-		for _, leftNode := range leftNodeSet {
-			for _, rightNode := range rightNodeSet {
-				if GetCursorString(leftNode) < GetCursorString(rightNode) {
-					context.result = Bool(true)
-					return nil
-				}
-			}
-		}
-
-		context.result = Bool(false)
-		return nil
-	}
-
-	leftNumber, leftNumberOk := left.(Number)
-
-	if leftNumberOk && rightNodeSetOk {
-		for _, rightNode := range rightNodeSet {
-			if leftNumber < Number(getStringNumber(GetCursorString(rightNode))) {
-				context.result = Bool(true)
-				return nil
-			}
-		}
-
-		context.result = Bool(false)
-		return nil
-	}
-
-	rightNumber, rightNumberOk := right.(Number)
-
-	if leftNodeSetOk && rightNumberOk {
-		for _, leftNode := range leftNodeSet {
-			if Number(getStringNumber(GetCursorString(leftNode))) < rightNumber {
-				context.result = Bool(true)
-				return nil
-			}
-		}
-
-		context.result = Bool(false)
-		return nil
-	}
-
-	leftString, leftStringOk := left.(String)
-
-	if leftStringOk && rightNodeSetOk {
-		for _, rightNode := range rightNodeSet {
-			if leftString < String(GetCursorString(rightNode)) {
-				context.result = Bool(true)
-				return nil
-			}
-		}
-
-		context.result = Bool(false)
-		return nil
-	}
-
-	rightString, rightStringOk := right.(String)
-
-	if leftNodeSetOk && rightStringOk {
-		for _, leftNode := range leftNodeSet {
-			if String(GetCursorString(leftNode)) < rightString {
-				context.result = Bool(true)
-				return nil
-			}
-		}
-
-		context.result = Bool(false)
-		return nil
-	}
-
-	context.result = Bool(left.Number() < right.Number())
+	context.result = Bool(relationalCompare(left, right, cmp))
 	return nil
+}
+
+func execRelationalExprLessThan(context *exprContext, expr *grammar.Grammar) error {
+	return execRelationalExpr(context, expr, func(a, b float64) bool { return a < b })
 }
 
 func execRelationalExprLessThanOrEqual(context *exprContext, expr *grammar.Grammar) error {
-	left, right, err := leftRightIndependentResult(context, expr)
-
-	if err != nil {
-		return err
-	}
-
-	leftNodeSet, leftNodeSetOk := left.(NodeSet)
-	rightNodeSet, rightNodeSetOk := right.(NodeSet)
-
-	if leftNodeSetOk && rightNodeSetOk {
-		for _, leftNode := range leftNodeSet {
-			for _, rightNode := range rightNodeSet {
-				if GetCursorString(leftNode) <= GetCursorString(rightNode) {
-					context.result = Bool(true)
-					return nil
-				}
-			}
-		}
-
-		context.result = Bool(false)
-		return nil
-	}
-
-	leftNumber, leftNumberOk := left.(Number)
-
-	if leftNumberOk && rightNodeSetOk {
-		for _, rightNode := range rightNodeSet {
-			if leftNumber <= Number(getStringNumber(GetCursorString(rightNode))) {
-				context.result = Bool(true)
-				return nil
-			}
-		}
-
-		context.result = Bool(false)
-		return nil
-	}
-
-	rightNumber, rightNumberOk := right.(Number)
-
-	if leftNodeSetOk && rightNumberOk {
-		for _, leftNode := range leftNodeSet {
-			if Number(getStringNumber(GetCursorString(leftNode))) <= rightNumber {
-				context.result = Bool(true)
-				return nil
-			}
-		}
-
-		context.result = Bool(false)
-		return nil
-	}
-
-	leftString, leftStringOk := left.(String)
-
-	if leftStringOk && rightNodeSetOk {
-		for _, rightNode := range rightNodeSet {
-			if leftString <= String(GetCursorString(rightNode)) {
-				context.result = Bool(true)
-				return nil
-			}
-		}
-
-		context.result = Bool(false)
-		return nil
-	}
-
-	rightString, rightStringOk := right.(String)
-
-	if leftNodeSetOk && rightStringOk {
-		for _, leftNode := range leftNodeSet {
-			if String(GetCursorString(leftNode)) <= rightString {
-				context.result = Bool(true)
-				return nil
-			}
-		}
-
-		context.result = Bool(false)
-		return nil
-	}
-
-	context.result = Bool(left.Number() <= right.Number())
-	return nil
+	return execRelationalExpr(context, expr, func(a, b float64) bool { return a <= b })
 }
 
 func execRelationalExprGreaterThan(context *exprContext, expr *grammar.Grammar) error {
-	left, right, err := leftRightIndependentResult(context, expr)
-
-	if err != nil {
-		return err
-	}
-
-	leftNodeSet, leftNodeSetOk := left.(NodeSet)
-	rightNodeSet, rightNodeSetOk := right.(NodeSet)
-
-	if leftNodeSetOk && rightNodeSetOk {
-		for _, leftNode := range leftNodeSet {
-			for _, rightNode := range rightNodeSet {
-				if GetCursorString(leftNode) > GetCursorString(rightNode) {
-					context.result = Bool(true)
-					return nil
-				}
-			}
-		}
-
-		context.result = Bool(false)
-		return nil
-	}
-
-	leftNumber, leftNumberOk := left.(Number)
-
-	if leftNumberOk && rightNodeSetOk {
-		for _, rightNode := range rightNodeSet {
-			if leftNumber > Number(getStringNumber(GetCursorString(rightNode))) {
-				context.result = Bool(true)
-				return nil
-			}
-		}
-
-		context.result = Bool(false)
-		return nil
-	}
-
-	rightNumber, rightNumberOk := right.(Number)
-
-	if leftNodeSetOk && rightNumberOk {
-		for _, leftNode := range leftNodeSet {
-			if Number(getStringNumber(GetCursorString(leftNode))) > rightNumber {
-				context.result = Bool(true)
-				return nil
-			}
-		}
-
-		context.result = Bool(false)
-		return nil
-	}
-
-	leftString, leftStringOk := left.(String)
-
-	if leftStringOk && rightNodeSetOk {
-		for _, rightNode := range rightNodeSet {
-			if leftString > String(GetCursorString(rightNode)) {
-				context.result = Bool(true)
-				return nil
-			}
-		}
-
-		context.result = Bool(false)
-		return nil
-	}
-
-	rightString, rightStringOk := right.(String)
-
-	if leftNodeSetOk && rightStringOk {
-		for _, leftNode := range leftNodeSet {
-			if String(GetCursorString(leftNode)) > rightString {
-				context.result = Bool(true)
-				return nil
-			}
-		}
-
-		context.result = Bool(false)
-		return nil
-	}
-
-	context.result = Bool(left.Number() > right.Number())
-	return nil
+	return execRelationalExpr(context, expr, func(a, b float64) bool { return a > b })
 }
 
 func execRelationalExprGreaterThanOrEqual(context *exprContext, expr *grammar.Grammar) error {
-	left, right, err := leftRightIndependentResult(context, expr)
-
-	if err != nil {
-		return err
-	}
-
-	leftNodeSet, leftNodeSetOk := left.(NodeSet)
-	rightNodeSet, rightNodeSetOk := right.(NodeSet)
-
-	if leftNodeSetOk && rightNodeSetOk {
-		for _, leftNode := range leftNodeSet {
-			for _, rightNode := range rightNodeSet {
-				if GetCursorString(leftNode) >= GetCursorString(rightNode) {
-					context.result = Bool(true)
-					return nil
-				}
-			}
-		}
-
-		context.result = Bool(false)
-		return nil
-	}
-
-	leftNumber, leftNumberOk := left.(Number)
-
-	if leftNumberOk && rightNodeSetOk {
-		for _, rightNode := range rightNodeSet {
-			if leftNumber >= Number(getStringNumber(GetCursorString(rightNode))) {
-				context.result = Bool(true)
-				return nil
-			}
-		}
-
-		context.result = Bool(false)
-		return nil
-	}
-
-	rightNumber, rightNumberOk := right.(Number)
-
-	if leftNodeSetOk && rightNumberOk {
-		for _, leftNode := range leftNodeSet {
-			if Number(getStringNumber(GetCursorString(leftNode))) >= rightNumber {
-				context.result = Bool(true)
-				return nil
-			}
-		}
-
-		context.result = Bool(false)
-		return nil
-	}
-
-	leftString, leftStringOk := left.(String)
-
-	if leftStringOk && rightNodeSetOk {
-		for _, rightNode := range rightNodeSet {
-			if leftString >= String(GetCursorString(rightNode)) {
-				context.result = Bool(true)
-				return nil
-			}
-		}
-
-		context.result = Bool(false)
-		return nil
-	}
-
-	rightString, rightStringOk := right.(String)
-
-	if leftNodeSetOk && rightStringOk {
-		for _, leftNode := range leftNodeSet {
-			if String(GetCursorString(leftNode)) >= rightString {
-				context.result = Bool(true)
-				return nil
-			}
-		}
-
-		context.result = Bool(false)
-		return nil
-	}
-
-	context.result = Bool(left.Number() >= right.Number())
-	return nil
+	return execRelationalExpr(context, expr, func(a, b float64) bool { return a >= b })
 }
